@@ -21,3 +21,4 @@ import TFV.Properties.Src.ShadeBook
 #print axioms TFV.SrcTie.C15_src_shade_update_u_F
 #print axioms TFV.SrcTie.C15_src_jde_greedy
 #print axioms TFV.SrcTie.C15_src_shade_bookkeeping
+#print axioms TFV.SrcTie.C15_src_shaga_bookkeeping
